@@ -247,7 +247,7 @@ def run(run):
     info = E.explore(run, spec(d))
     sub = inplace_ops()
     d2 = 3 if run.quick else 4
-    sp2 = spec(d2, sub)
+    sp2 = spec(d2, sub, two=not run.quick)      # quick: the two-table oracle runs on the full alphabet only
     sp2.label = 'inplace-d%d' % d2
     info2 = E.explore(run, sp2)
     run.extra['alphabet'] = [E.opname(o) for o in OPS.all_ops()]
